@@ -170,7 +170,8 @@ pub fn main(a: &vcommon::Args) {
                         34..=38 if nid[s] > 0 => json!({"c": "behClose", "s": s, "id": r.gen_range(1..=nid[s])}),
                         39..=42 if nid[s] > 0 => json!({"c": "keepAlive", "s": s, "id": r.gen_range(1..=nid[s]), "v": false}),
                         43..=69 => json!({"c": "poll", "s": s}),
-                        70..=84 => json!({"c": "poll1", "s": s}),
+                        70..=79 => json!({"c": "poll1", "s": s}),
+                        80..=84 => json!({"c": "pollRaw", "s": s}),
                         _ => json!({"c": "pollAll"}),
                     });
                 }
